@@ -88,16 +88,17 @@ class Check(BaseCheck):
 
     def problems(self, seed, n_tri, n_tet):
         rng = gen.rng_for(seed, "c03")
-        for kind, stream in (("tri", gen.tria_stream(seed + 91, n_tri, "small")), ("tet", gen.tet_stream(seed + 92, n_tet, "small"))):
+        for kind, stream in (("tri", gen.tria_stream(seed + 91, n_tri, "small", first=("two-components", "two-spheres"))), ("tet", gen.tet_stream(seed + 92, n_tet, "small"))):
             for c in stream:
                 n = len(c["v"])
                 if len(np.unique(c["t"])) != n or n < 5:
                     continue
                 ks = sorted({1, int(rng.integers(2, max(3, n - 1))), min(n - 1, 6)}) if self.quick or n > 30 else list(range(1, n))
+                multi = c["name"] in ("two-components", "two-spheres")
                 for k in ks:
                     if 1 <= k < n:
                         yield dict(kind=kind, v=c["v"], t=c["t"], k=int(k), lump=bool(rng.random() < 0.5), name=c["name"],
-                                   dt="f32" if rng.random() < 0.2 else "f64", pres=c.get("pres"), vdtype=c.get("vdtype"), pre=[None, None, "poisson", "poisson-d", "eigs"][int(rng.integers(0, 5))])
+                                   dt="f64" if multi else ("f32" if rng.random() < 0.2 else "f64"), pres=c.get("pres"), vdtype=c.get("vdtype"), pre=[None, None, "poisson", "poisson-d", "eigs"][int(rng.integers(0, 5))])
 
     def correspond(self, drv, stats):
         fails = []
